@@ -10,7 +10,7 @@ from vf.engine import sched
 PROPERTY = "C20"
 WORKER_ENV = {"VERIF_EXTRA_PATH": os.path.join(os.path.dirname(os.path.dirname(os.path.abspath(__file__))), "standin"),
               "MORE_EXECUTORS_PROMETHEUS": "1"}
-MENU = ["submit", "finish-ok", "finish-fail", "cancel-newest", "sleep"]
+MENU = ["submit", "finish-ok", "finish-fail", "cancel-newest", "sleep", "start-oldest"]
 
 
 def scn_metrics(ctx):
@@ -71,6 +71,10 @@ def scn_metrics(ctx):
                     finish(pend[0], "value", "poison" if (kind == "poll" and ctx.choice(2, "poison%d" % s)) else 1)
                 else:
                     finish(pend[0], "error", exc=Boom("fail"))
+        elif op == "start-oldest":
+            pend = [d for d in me.submitted if not d.done() and not d.running()]
+            if pend:
+                pend[0].set_running_or_notify_cancel()  # the callable is running now: cancel attempts are refused
         elif op == "cancel-newest":
             un = [f for f in futs if not f.done()]
             if un:
@@ -134,7 +138,7 @@ def scn_metrics(ctx):
             ctx.check("throttle_queue-matches-structure", G("throttle_queue", "m") == len(queue), "gauge %s, len(queue) %d" % (G("throttle_queue", "m"), len(queue)))
         else:
             ctx.reach("anchor-absent")
-        if kind == "throttle" and not do_shutdown:
+        if kind == "throttle" and not do_shutdown and all(f.done() for f in own):
             ctx.check("throttle_queue-empty-at-quiescence", G("throttle_queue", "m") == 0, "gauge %s although every future is finished" % G("throttle_queue", "m"))
         ctx.reach("throttle-metrics-checked")
     if kind == "poll":
